@@ -638,7 +638,7 @@ func TestVerif_C26(t *testing.T) {
 
 		depth1 := vx.Pick(c, 4, 5)
 		depth2 := vx.Pick(c, 4, 5)
-		c.Rule(fmt.Sprintf("breadth-first search over operation sequences on a real lossState+ccReno (client and server side, maxDatagramSize 1200), states deduplicated on the complete lossState with times relative to now. Alphabet 'app': send(size 1200|50; ack-eliciting | ACK-only | padded not-ack-eliciting), skip, every ACK frame of <=2 ranges over the last %d numbers plus the never-sent next number (ack delay 0; 25ms for two shapes), advance(0|1ms|lossDuration|to the timer|1s), confirmHandshake, setUnderutilized; depth %d beyond each seed. Alphabet 'multi': sends in all three spaces, 5 ACK shapes per space, discardKeys(initial|handshake), discardPackets(initial), datagramReceived(1200|40), validateClientAddress, confirmHandshake, advance; depth %d beyond each seed. Seeds: empty; a flight of 5 packets; 1, 2 and 3 completed recovery episodes (cwnd 6000/3000/2400); an RTT sample followed by packets 1s apart (persistent-congestion prelude); packets in all three spaces; server seeds start with a 1200-byte datagram and address validation (app) or with 0, 1 or 3 datagrams of anti-amplification credit (multi). A transition is non-trivial when it was applied to the real object and every clause was compared.", win, depth1, depth2))
+		c.Rule(fmt.Sprintf("breadth-first search over operation sequences on a real lossState+ccReno (client and server side, maxDatagramSize 1200), states deduplicated on the complete lossState with times relative to now. Alphabet 'app': send(size 1200|50; ack-eliciting | ACK-only | padded not-ack-eliciting), skip, every ACK frame of <=2 ranges over the last %d numbers plus the never-sent next number (ack delay 0; 25ms for two shapes), advance(0|1ms|lossDuration|to the timer|1s), confirmHandshake, setUnderutilized; depth %d beyond each seed. Alphabet 'multi': sends in all three spaces, 5 ACK shapes per space, discardKeys(initial|handshake), discardPackets(initial), datagramReceived(1200|40), validateClientAddress, confirmHandshake, advance; depth %d beyond each seed. Seeds: empty; a flight of 5 packets; 1, 2 and 3 completed recovery episodes (cwnd 6000/3000/2400); an RTT sample followed by packets 1s apart (persistent-congestion prelude); packets in all three spaces; server seeds start with a 1200-byte datagram and address validation (app; only the empty, 2-episode, and in thorough the flight and persistent-congestion seeds) or with 0, 1 or 3 datagrams of anti-amplification credit (multi). A transition is non-trivial when it was applied to the real object and every clause was compared.", win, depth1, depth2))
 		c.Rule("after every transition: every ack/loss callback is for a packet that was sent, not skipped, has no fate yet, carries the size/flags it was sent with; acked only if covered by the ACK frame of this operation; lost in increasing order per space and batch; an accepted ACK frame leaves no covered packet unresolved; discardKeys resolves the rest of the space; white-box: each list entry's state equals the recorded fate, every packet without a fate is still in the list in state sent; cc.bytesInFlight == sum of sizes of in-flight packets without a fate, >= 0; cc.congestionWindow >= 2*maxDatagramSize; ACK of a never-sent number is refused without reporting anything")
 		c.Assume("ack-eliciting sends only when sendLimit()==ccOK and size<=maxSendSize() (as Conn.maybeSend), other sends unless ccBlocked; no sends/acks in a space after discardKeys; time never goes backwards; after a refused ACK frame the history ends (connection closed)")
 		c.Assume("an ACK frame covering a skipped number that has already been cleaned from the sent list is accepted by lossState (recorded as an outcome, judged by C25, not here)")
@@ -652,9 +652,12 @@ func TestVerif_C26(t *testing.T) {
 			with := func(p, x []c26Op) []c26Op { return append(append([]c26Op(nil), p...), x...) }
 			seeds1 := [][]c26Op{with(pre, nil), with(pre, flight), with(pre, rep(1)), with(pre, rep(2)), with(pre, rep(3)), with(pre, pcPrelude),
 				with(pre, append([]c26Op{{K: c26Confirm}}, flight...))}
-			if side == serverSide && c.Quick() {
+			if side == serverSide {
 				// once the address is validated a server differs from a client only in PTO arming/backoff rules
 				seeds1 = [][]c26Op{with(pre, nil), with(pre, rep(2))}
+				if !c.Quick() {
+					seeds1 = append(seeds1, with(pre, flight), with(pre, pcPrelude))
+				}
 			}
 			seeds2 := [][]c26Op{nil, with(pre3, handshake), with(pre, rep(2))}
 			if side == serverSide {
